@@ -7,3 +7,7 @@ def fill(chk, NA):
         'complete product of every syntax note in every shipped map x all segment lengths x all presence patterns, judged by the five X12 definitions; both the note evaluator and the element errors of segment validation are compared',
         'level 2 is differential against the same node with the note removed; trusted: my transcription of the five definitions',
         'exhaustive enumeration of a finite configuration x input product on the real code', 'E1', 'DESIGN.md 3/C14')
+    chk('C01', 'model_checking',
+        'every body up to length 6/7 over an 8-symbol alphabet (data, the three delimiters, LF, CR, blank), several delimiter triples, every read schedule with <=1/2 short reads at buffer sizes 1..8, boundary windows around the real 8 KiB refills, and three source kinds, all compared with a reference tokenizer written from the statement',
+        'trusted: the 40-line reference tokenizer; data alphabet is {A,1}; the short-read menu for large reads is {1,2,half,full-2,full-1}; CR/LF following leading blanks is left open by the statement and skipped',
+        'stateless exhaustive exploration with iterative deviation (short-read) bounding on the real reader', 'E1', 'DESIGN.md 3/C01')
